@@ -274,3 +274,10 @@ CLAIMS["C02"]["text"] += (" Stream layers (yamux adapter, upgrader stack, hosts)
     "and readers that poll with past or short read deadlines and keep buf[:n]; delivery stays byte-exact, in order, once.")
 CLAIMS["C02"]["note"] += (" Polling readers get at most the initial 256 KiB window of payload, because go-yamux drops a window update whose deadline has expired (a liveness matter of the dependency, outside the statement). No deadlines are generated on the opener end of lazily negotiated streams; "
     "no write deadlines, and on Noise/pnet no read deadlines, are generated on bare secured connections, because a timed-out frame cannot be resumed there.")
+
+CLAIMS["C08"]["text"] += (" Private keys: families of serialized private keys derived from one fresh key of every type (bit/byte edits at drawn positions of every named part incl. the Ed25519 seed and public halves, parts spliced from another key, cuts, legacy/alias/DER/protobuf re-encodings) "
+    "are unmarshalled and every pair of accepted keys is held to the rule 'Equals (both directions) and KeyEqual agree; Equal => same type, public key, peer ID, interchangeable signatures and identical Raw bytes; identical bytes => Equal; unequal keys with different public keys never cross-verify'.")
+CLAIMS["C08"]["note"] += (" RSA is exempt from the 'identical Raw' clause only: one RSA key has several accepted PKCS#1 encodings (prime order, d+lambda, and Go >= 1.24 does not validate the unused d field), so 'Equal with other bytes' is allowed there when public key, ID and cross-signatures agree.")
+CLAIMS["C06"]["text"] += (" Notifiees that sign off from inside their first callback, or sign on / off at generated instants, are registered before, between or after the two permanent notifiees: the permanent ones keep the exactly-once rules, the transient ones observe every event at most once.")
+CLAIMS["C06"]["note"] += (" In cases with transient notifiees callbacks do not linger (a callback sleeping in virtual time while Notify/StopNotify waits for the swarm's registry lock would stall the bubble).")
+CLAIMS["C09"]["text"] += (" A third, focused property (four single-address peers, refreshes in the three finite TTL classes overtaking each other's expiries, clock advances in GC-period slices) checks PeersWithAddrs of both books after every slice: live => listed, expired for two GC periods => gone.")
